@@ -6,8 +6,11 @@ import (
 	"fmt"
 	"math/rand"
 	"reflect"
+	"regexp"
 	"strconv"
 	"strings"
+
+	"github.com/onheap/eval"
 )
 
 func init() {
@@ -135,7 +138,58 @@ func c19EvalSrc(w *W, src string, opts OptSet) Outcome {
 	}
 	o, _ := callExpr(e, CallEval, &RecFetcher{Vals: map[string]interface{}{}}, nil, false)
 	w.Evals++
+	c19Reused(w, src, opts, o)
 	return o
+}
+
+// c19Reused: a conversion written with literal operands, (alias "text" "layout") or (alias "text" N), is also evaluated
+// through ONE long-lived compiled program per (alias, operand count, option set) of this process, (alias a0 a1), with the
+// operands bound as variables - the way a rule engine evaluates one rule against many records. What a conversion gives
+// is a function of its operands only, so both ways must agree, whatever that program was evaluated with before.
+var (
+	c19LitCall   = regexp.MustCompile(`^\(([a-z_]+) "([^"]*)"(?: (?:"([^"]*)"|(-?[0-9]+)))?\)$`)
+	c19Programs  = map[string]*eval.Expr{}
+	c19ProgramCC = map[string]*eval.Config{}
+)
+
+func c19Reused(w *W, src string, opts OptSet, fresh Outcome) {
+	m := c19LitCall.FindStringSubmatch(src)
+	if m == nil || fresh.Panic != nil {
+		return
+	}
+	vals := map[string]interface{}{"a0": m[2]}
+	prog := "(" + m[1] + " a0)"
+	switch {
+	case strings.HasSuffix(src, `")`) && strings.Count(src, `"`) == 4:
+		vals["a1"] = m[3]
+		prog = "(" + m[1] + " a0 a1)"
+	case m[4] != "":
+		n, err := strconv.ParseInt(m[4], 10, 64)
+		if err != nil {
+			return
+		}
+		vals["a1"] = n
+		prog = "(" + m[1] + " a0 a1)"
+	}
+	key := fmt.Sprintf("%s|%d", prog, opts)
+	e := c19Programs[key]
+	if e == nil {
+		cc := buildConfig(CaseCfg{Opts: opts, VarNames: []string{"a0", "a1"}}, nil)
+		var co Outcome
+		e, co = compileGuard(cc, prog)
+		if co.Panic != nil || co.Err != nil {
+			w.Fail("reused-program-does-not-compile", "%s does not compile: %s", prog, co)
+			return
+		}
+		c19Programs[key] = e
+		c19ProgramCC[key] = cc
+	}
+	o, _ := callExpr(e, CallEval, &RecFetcher{Vals: vals, Keys: c19ProgramCC[key].VariableKeyMap}, nil, false)
+	w.Evals++
+	w.Inc("evaluations_through_long_lived_programs")
+	if (o.Err != nil) != (fresh.Err != nil) || o.Panic != nil || (o.Err == nil && !valEq(o.V, fresh.V)) {
+		w.Fail("reused-program-differs-from-fresh", "%s evaluated alone gives %s; the long-lived program %s evaluated with a0=%q a1=%v gives %s (earlier evaluations of that program used other operands)", src, fresh, prog, vals["a0"], vals["a1"], o)
+	}
 }
 
 func c19Run(w *W, idx int) {
@@ -443,6 +497,12 @@ func c19Dates(w *W, r *rand.Rand, idx int) {
 			w.Inc("alias_" + a)
 			encode(fmt.Sprintf("(%s \"%s\" \"01/02/2006\")", a, us), dateOnly.unix(), "US layout "+us)
 			w.Inc("date_same_instant_pairs")
+			if t.d <= 12 {
+				// the same text read day-first is another day
+				swapped := instant{t.y, t.d, t.mo, 0, 0, 0}
+				encode(fmt.Sprintf("(%s \"%s\" \"02/01/2006\")", a, us), swapped.unix(), "day-first layout "+us)
+				w.Inc("date_same_text_other_layout")
+			}
 		}
 		for _, a := range []string{"t_time", "datetime", "to_datetime"} {
 			w.Inc("alias_" + a)
